@@ -15,6 +15,7 @@ import subprocess
 import urllib.request
 from pathlib import Path
 
+import converttable
 import core
 import targets
 import workflow
@@ -249,8 +250,10 @@ def run(ctx: core.Ctx) -> int:
     # Targets.tla: the decision table of annotate's destinations (FILE.license absent / file / directory / live or dangling link)
     tg = targets.stage(ctx, ("C15.", "crash"), tid0=950000)
     mc_viol += tg["mc_violations"]
+    cv = converttable.stage(ctx, ("C15.", "crash"), tid0=960000)
+    mc_viol += cv["mc_violations"]
     return ctx.finish(
-        evaluations=len(events) + len(wf["events"]) + len(tg["events"]),
+        evaluations=len(events) + len(wf["events"]) + len(tg["events"]) + len(cv["events"]),
         distinct_nontrivial=len({e["label"] + str(e["k"]) for e in events if e["cmd"]["kind"] not in ("help", "version")}),
         rule="command sequences over {lint x4 formats, lint-file, spdx, spdx -o, supported-licenses, --help, --version, annotate "
              "on files / a binary / a symlink leaving the project, annotate -r on the root / directories / a symlinked "
